@@ -72,4 +72,40 @@ pub mod ring {
         }
         }
     }
+    pub mod signature {
+        use vstd::prelude::*;
+        use crate::cryptospec::*;
+        use crate::glue::*;
+        verus!{
+        pub struct RsaParameters;
+        pub struct RsaEncoding;
+        pub const RSA_PSS_2048_8192_SHA384: RsaParameters = RsaParameters;
+        pub const RSA_PSS_SHA384: RsaEncoding = RsaEncoding;
+        #[verifier::external_body]
+        #[verifier::reject_recursive_types(B)]
+        pub struct UnparsedPublicKey<B> { _b: core::marker::PhantomData<B> }
+        impl<B: AsRef<[u8]>> UnparsedPublicKey<B> {
+            pub uninterp spec fn pk(&self) -> Seq<u8>;
+            #[verifier::external_body]
+            pub fn new(algorithm: &'static RsaParameters, bytes: B) -> (r: Self) ensures r.pk() == as_ref_spec::<B, [u8]>(&bytes)@ { unimplemented!() }
+            #[verifier::external_body]
+            pub fn verify(&self, message: &[u8], signature: &[u8]) -> (r: Result<(), super::error::Unspecified>)
+                ensures r is Ok <==> rsa_pss_verify(self.pk(), message@, signature@)
+            { unimplemented!() }
+        }
+        #[verifier::external_body] pub struct RsaKeyPair { _x: u8 }
+        impl RsaKeyPair {
+            pub uninterp spec fn pkcs8(&self) -> Seq<u8>;
+            #[verifier::external_body]
+            pub fn from_pkcs8(pkcs8: &[u8]) -> (r: Result<RsaKeyPair, super::error::KeyRejected>)
+                ensures rsa_pkcs8_ok(pkcs8@) <==> r is Ok, r is Ok ==> r->Ok_0.pkcs8() == pkcs8@
+            { unimplemented!() }
+            #[verifier::external_body]
+            pub fn sign(&self, padding_alg: &'static RsaEncoding, rng: &super::rand::SystemRandom, msg: &[u8], signature: &mut [u8]) -> (r: Result<(), super::error::Unspecified>)
+                ensures final(signature)@.len() == old(signature)@.len(),
+                        r is Ok ==> rsa_pss_sign_rel(self.pkcs8(), msg@, final(signature)@) && old(signature)@.len() == rsa_modulus_len(self.pkcs8()),
+            { unimplemented!() }
+        }
+        }
+    }
 }
